@@ -1,6 +1,7 @@
 package main
 
 import (
+	"bytes"
 	"encoding/json"
 	"fmt"
 	"math/rand"
@@ -333,6 +334,15 @@ func (e *engine) checkPatchCase(worker int, c *patchCase, seed, want *jsonread.V
 	}
 	ec := lib.Classify(r.aerr)
 	obs := map[string]interface{}{"out": string(r.out), "out_nil": r.out == nil, "err": errString(r.aerr), "errc": ec}
+	// the document that was returned must stay what it was: a result that shares memory with a pooled buffer or
+	// with an input changes under the caller's hands when the library is used again (by this or another goroutine)
+	returned := append([]byte{}, r.out...)
+	defer func() {
+		if !bytes.Equal(returned, r.out) {
+			e.rep.Report(viol("result-changed-later", "the bytes returned by Apply changed after the call returned (the result aliases memory the library reuses)",
+				map[string]interface{}{"returned": string(returned), "now": string(r.out)}))
+		}
+	}()
 
 	// outcome() judges one real result against an expected (status, document)
 	outcome := func(r applyResult, status string, want *jsonread.Value, what string, obs map[string]interface{}) bool {
@@ -490,6 +500,32 @@ func (e *engine) checkCopyLimit(worker int, c *patchCase, r applyResult, ec lib.
 		probes = append(probes, probe{ln.Hi, "run"})
 	}
 	probes = append(probes, probe{ln.Hi + 1, "run"}, probe{ln.Hi + 1000, "run"})
+	// the total is per Apply call: ONE options value, first a call whose copies fit but which then fails in a test,
+	// then the patch itself - which must still succeed under limit = total
+	if ln.Hi >= 1 {
+		o := ln.Opts
+		o.Limit = ln.Hi
+		shared := o.Native()
+		failing := joinPatch(append(append([]string{}, c.opTexts...), `{"op":"test","path":"","value":"no document equals this string"}`))
+		var r1, r2 applyResult
+		pan := e.wd.Guard(worker, hang, func() {
+			r1.out, r1.aerr, r1.derr = lib.ApplyNative(c.docText, failing, shared)
+			r2.out, r2.aerr, r2.derr = lib.ApplyNative(c.docText, c.patch, shared)
+		})
+		e.rep.Count("executions", 2)
+		e.rep.Label("CopyProbe_reuse")
+		obs2 := map[string]interface{}{"limit": ln.Hi, "first_call_patch": string(failing), "first_err": errString(r1.aerr),
+			"second_out": string(r2.out), "second_err": errString(r2.aerr)}
+		if pan != "" {
+			e.rep.Report(viol("panic", "Apply panicked: "+firstLine(pan), obs2))
+		} else if r1.aerr == nil {
+			e.rep.Report(viol("unexpected-success", "a patch ending in a failing test succeeded", obs2))
+		} else if lib.Classify(r2.aerr).Copy {
+			e.rep.Report(viol("limit-carried-over", "the copy total of an earlier (failed) Apply call was carried into the next call that uses the same options value", obs2))
+		} else {
+			outcome(r2, "run", want, "reusing the options value after a failed call: ", obs2)
+		}
+	}
 	for _, pb := range probes {
 		o := ln.Opts
 		o.Limit = pb.limit
